@@ -1,7 +1,7 @@
 (** * Model of the item store of crate [info] (one [store] per Rust document)
 
     What is modelled (DESIGN.md 4.6, Appendix A, brought up to date with the [fix:] commits of
-    branch agent-dom: D18 D20 D21 D41 D43 D45 D51 D52 D53 D54 D55):
+    branch agent-dom: D18 D20 D21 D41 D43 D45 D51 D52 D53 and the new DD1 (set_values), DD2 (doctype parent)):
 
     - an item per node with kind, qualified name, data, [parent_id], child list (value items for
       an attribute), attribute list in stored order, declared entities (doctype);
@@ -344,9 +344,9 @@ Definition previous_sibling (s : store) (merged : bool) (n : id) : option vnode 
 Definition first_child (s : store) (merged : bool) (n : id) : option vnode := hd_error (child_view s merged n).
 Definition last_child (s : store) (merged : bool) (n : id) : option vnode := hd_error (rev (child_view s merged n)).
 
-(** [Attr::specified] = the owner element is found *)
-Definition specified (s : store) (a : id) : bool :=
-  match parent_of s a with Some p => has_kind s KEl p | None => false end.
+(** [Attribute::owner_element]: the parent id resolves to an element *)
+Definition owner_element (s : store) (a : id) : option id :=
+  match parent_of s a with Some p => if has_kind s KEl p then Some p else None | None => None end.
 
 (** ** serialisation ([Display]) *)
 Definition c_lt := 60. Definition c_gt := 62. Definition c_sp := 32. Definition c_sl := 47.
